@@ -183,9 +183,11 @@ void QueueingRDMController::HandleRDMResponse(RDMReply *reply) {
       m_frames.insert(m_frames.end(), reply->Frames().begin(),
                       reply->Frames().end());
       RDMReply new_reply(reply->StatusCode(), NULL, m_frames);
-      RunCallback(&new_reply);
+      // Clear the overflow state before running the callback, the callback
+      // may send a request whose response arrives before it returns.
       m_response.reset();
       m_frames.clear();
+      RunCallback(&new_reply);
       TakeNextAction();
     } else {
       // Combine the data.
@@ -197,14 +199,13 @@ void QueueingRDMController::HandleRDMResponse(RDMReply *reply) {
       if (!m_response.get()) {
         // The response was invalid
         RDMReply new_reply(RDM_INVALID_RESPONSE, NULL, m_frames);
-        RunCallback(&new_reply);
         m_frames.clear();
+        RunCallback(&new_reply);
         TakeNextAction();
       } else if (reply->Response()->ResponseType() != ACK_OVERFLOW) {
         RDMReply new_reply(RDM_COMPLETED_OK, m_response.release(), m_frames);
-        RunCallback(&new_reply);
-        m_response.reset();
         m_frames.clear();
+        RunCallback(&new_reply);
         TakeNextAction();
       } else {
         ContinueOverflowSequence();
